@@ -36,7 +36,14 @@ type gCase struct {
 	// deleted something: the final vacuum is run again with each single one of its requests failing (before
 	// taking effect; for DELETE and PUT also after taking effect); the connection is then used on, unrefreshed
 	Faults int `json:"faults,omitempty"`
+	// Alpha, when set, restricts the events after First to these indices of gOps, and the case to sequences of
+	// exactly Depth events (the deeper slice over a smaller alphabet)
+	Alpha []int `json:"alpha,omitempty"`
 }
+
+// gDeepOps is the alphabet of the deeper slice: the events that change what a later vacuum finds (a table that
+// returns to earlier or empty contents, an earlier vacuum, a second writer with equal or different rows, a merge).
+var gDeepOps = []string{"w1:insert 1", "w1:delete 1", "w1:insert 2", "w1:vacuum-all", "w2:insert 2", "merge-open"}
 
 // gFault selects the failing request of the final vacuum.
 type gFault struct {
@@ -97,6 +104,23 @@ func gRun(r *engine.Run, mode string) int {
 			cases = append(cases, engine.J(gCase{Mode: mode, EPN: cf.epn, Cache: cf.cache, First: []int{a}, Depth: 1, Faults: faults}))
 		}
 	}
+	// the deeper slice: one more event over the smaller alphabet gDeepOps
+	var deep []int
+	for _, name := range gDeepOps {
+		for i, o := range gOps {
+			if o == name {
+				deep = append(deep, i)
+			}
+		}
+	}
+	r.Bounds["deeper_slice"] = map[string]interface{}{"alphabet": gDeepOps, "depth": depth + 1}
+	for _, cf := range cfgs {
+		for _, a := range deep {
+			for _, b := range deep {
+				cases = append(cases, engine.J(gCase{Mode: mode, EPN: cf.epn, Cache: cf.cache, First: []int{a, b}, Depth: depth + 1, Alpha: deep}))
+			}
+		}
+	}
 	n := 0
 	r.MapBudget("vacuum", cases, func(i int, c json.RawMessage, res *engine.Result) {
 		r.Add("vacuum", c, res)
@@ -113,9 +137,22 @@ func gWorker(raw json.RawMessage) *engine.Result {
 	must(json.Unmarshal(raw, &c))
 	res := &engine.Result{}
 	var sample interface{}
+	nAlpha := len(gOps)
+	if len(c.Alpha) > 0 {
+		nAlpha = len(c.Alpha)
+	}
 	for total := len(c.First); total <= c.Depth; total++ {
-		seqs(len(gOps), total-len(c.First), func(tailOps []int) {
-			ops := append(append([]int{}, c.First...), tailOps...)
+		if len(c.Alpha) > 0 && total != c.Depth {
+			continue
+		}
+		seqs(nAlpha, total-len(c.First), func(tailOps []int) {
+			ops := append([]int{}, c.First...)
+			for _, t := range tailOps {
+				if len(c.Alpha) > 0 {
+					t = c.Alpha[t]
+				}
+				ops = append(ops, t)
+			}
 			// the final vacuum: every cutoff relative to every event time
 			ncut := 3 * (len(ops) + 2)
 			for ci := 0; ci < ncut; ci++ {
